@@ -191,8 +191,20 @@ func (c e2eCase) template(id uint16) refcodec.Template {
 	return t
 }
 
-func (c e2eCase) tmplSet(id uint16) entities.Set {
-	set := entities.NewSet(false)
+// e2eReuse returns the set to build on: a fresh one, or (every other time, as long-lived exporters do) the
+// session's own set after ResetSet.
+func e2eReuse(reuse entities.Set) entities.Set {
+	if reuse == nil {
+		return entities.NewSet(false)
+	}
+	reuse.ResetSet()
+	return reuse
+}
+
+func (c e2eCase) tmplSet(id uint16) entities.Set { return c.tmplSetOn(nil, id) }
+
+func (c e2eCase) tmplSetOn(reuse entities.Set, id uint16) entities.Set {
+	set := e2eReuse(reuse)
 	if err := set.PrepareSet(entities.Template, id); err != nil {
 		panic(err)
 	}
@@ -211,7 +223,11 @@ func (c e2eCase) tmplSet(id uint16) entities.Set {
 }
 
 func (c e2eCase) dataSet(id uint16, recs [][][]byte, variant int) entities.Set {
-	set := entities.NewSet(false)
+	return c.dataSetOn(nil, id, recs, variant)
+}
+
+func (c e2eCase) dataSetOn(reuse entities.Set, id uint16, recs [][][]byte, variant int) entities.Set {
+	set := e2eReuse(reuse)
 	if err := set.PrepareSet(entities.Data, id); err != nil {
 		panic(err)
 	}
